@@ -1,7 +1,7 @@
 (* Props/C12.v -- state-map duality and state constructors denote the documented states.  Property theorems only.
    The density matrix named by a tableau is rho = 2^-r prod_{a in [r,N)} (1+S_a)/2; at the level of this development a state is its signed stabilizer group, so
    "denotes the named density matrix" is stated through the active rows.  to_qutip and the dense matrices are compared numerically by the correspondence check (QuTiP trusted). *)
-From PC Require Import Model.Base Model.Pauli Model.CMap Model.Tableau Model.Spec Proofs.Transform Proofs.MaskFacts Proofs.TableauInv Proofs.ReachFacts Proofs.ProjectCFacts Proofs.GhzFacts.
+From PC Require Import Model.Base Model.Pauli Model.CMap Model.Tableau Model.Spec Proofs.Transform Proofs.MaskFacts Proofs.TableauInv Proofs.ReachFacts Proofs.ProjectCFacts Proofs.GhzFacts Model.Ket Model.Poly Model.PolySem Model.Sample Proofs.TraceFacts Proofs.ProjectorFacts Proofs.OverlapFacts Proofs.PositiveFacts.
 Open Scope Z_scope.
 
 (* converting a map to a state gives the state obtained by applying the map to |0...0>, signs included: every tableau row is the image of the corresponding row of |0..0> *)
@@ -79,3 +79,12 @@ Theorem C12_ghz_correlations : forall n t i, (1 <= n)%nat -> stabilizer_state_c 
   expect1 t (zz_str n i, 0%Z) = 1%Z /\ expect1 t (xall_str n, 0%Z) = 1%Z.
 Proof. exact ghz_expectations. Qed.
 Print Assumptions C12_ghz_correlations.
+(* THE DENSE EXPORT.  to_qutip multiplies the projectors (1+S_a)/2 of the active stabilizer rows and divides by 2^r: that product IS 2^r times the density matrix
+   (the 2^-N-weighted sum over the stabilizer group), entry by entry in the ket semantics; and the denoted matrix is Hermitian, of trace one, positive (C05) *)
+Theorem C12_projector_product_is_the_density_matrix : forall n s k k', tableau_ok n s -> length k = n ->
+  amp (proj_prod n (stabilizers s)) k k' = cmul (two_pow (rk s)) (amp (density_poly s) k k').
+Proof. exact proj_prod_density. Qed.
+Print Assumptions C12_projector_product_is_the_density_matrix.
+Theorem C12_density_matrix_trace_one : forall n t, tableau_ok n t -> trace_sem n (density_poly t) = c1.
+Proof. exact trace_rho_one. Qed.
+Print Assumptions C12_density_matrix_trace_one.
